@@ -795,6 +795,14 @@ class GraphBuilder(BuilderBase):
             else ir.convenience.convert_attribute(name, value)
             for name, value in kwargs.items()
         }
+        # Attribute parameters that are not given take their declared default value, as for `call`
+        if isinstance(function, ir.Function):
+            default_attributes = dict(function.attributes)
+        else:
+            default_attributes = {attr.name: attr for attr in function.function_ir.attrs}
+        for name, default in default_attributes.items():
+            if name not in attributes and default.value is not None:
+                attributes[name] = default
         nodes, outputs = _inliner.instantiate(
             graph, args, attributes, prefix=node_name_prefix
         )
